@@ -922,8 +922,6 @@ func (ro *RedisOutput) sendCmdsBatch(replayWait usync.WaitCloser, conn client.Re
 	updateCpTicker := time.NewTicker(cpTicker)
 	defer updateCpTicker.Stop()
 
-	cpInDbs := make(map[int]struct{})
-
 	// transaction : call sendFunc when command is "exec", never break down a transaction
 	// non-transaction : call sendFunc when queue is full or ticker is delivered
 
@@ -1009,14 +1007,10 @@ func (ro *RedisOutput) sendCmdsBatch(replayWait usync.WaitCloser, conn client.Re
 		}
 		if shouldUpdateCP {
 			if ro.cfg.EnableResumeFromBreakPoint {
-				if len(cmdQueue) > 0 {
-					lastCmd := cmdQueue[len(cmdQueue)-1]
-					if _, ok := cpInDbs[lastCmd.Db]; !ok {
-						cpInDbs[lastCmd.Db] = struct{}{}
-						batcher.Put("hset", checkpointKv.Key, checkpointKv.RunIdKey(), runId, checkpointKv.VersionKey(), config.Version)
-					}
-				}
-				batcher.Put("hset", checkpointKv.Key, checkpointKv.OffsetKey(), lastOffset)
+				// the position is stored together with its run id and version : a record that
+				// holds an offset only (first write into this database, or a record stripped by
+				// the stale checkpoint GC) is an undefined start point that shadows the good ones
+				batcher.Put("hset", checkpointKv.Key, checkpointKv.RunIdKey(), runId, checkpointKv.VersionKey(), config.Version, checkpointKv.OffsetKey(), lastOffset)
 			} else {
 				ro.cpGuard.Lock()
 				ro.checkpointInMem.Offset = lastOffset
